@@ -21,7 +21,7 @@ RULE = ('fitted GaussianMultivariate (2..6 columns, generated Gaussian-copula ta
         'same seed, order-invariance for a single free column, and the conditional normal law N(S12 S22^-1 z, Schur '
         'complement) computed independently from model.correlation: censored-normal DKW per free column, whitened joint '
         'test (DKW, mean band, Kendall tau) when no censoring is possible. Non-trivial: some |rho(free,conditioned)| >= 0.4 '
-        'or >= 2 conditioned columns not in schema order; distinct = distinct generated case.')
+        'or >= 2 conditioned columns not in schema order; distinct = distinct generated case. Sub-property tail_conditioning: two Gaussian columns with |rho| 0.97..0.999, condition at a normal score of +-4.3..5.15: the free column is continuous (no rows sharing a value) and N(rho z, 1-rho^2), scores recovered from the fitted Gaussian parameters (no censoring on the oracle side).')
 ASSUMPTIONS = [
     'normal scores of the output are recovered through the public fitted marginals, hence censored at Phi^-1(1-EPS)=5.17',
     'statistical bands at alpha=1e-13 per assertion (<= 3*d+3 assertions per case)',
@@ -226,7 +226,63 @@ def oracle(case):
     return {'nontrivial': bool(rho_fc >= 0.4 or (len(cols) >= 2 and out_of_order)), 'classes': cls}
 
 
+# ---- tail conditioning: the conditional law keeps its tail --------------------------------------------------
+
+def tail_strategy():
+    return st.fixed_dictionaries({
+        'rho': st.floats(0.97, 0.999), 'rho_neg': st.booleans(), 'z': st.one_of(st.floats(4.3, 5.15), st.floats(4.85, 5.15), st.floats(4.85, 5.15)), 'z_neg': st.booleans(),
+        'n_train': st.integers(300, 800), 'seed': S.SEEDS, 'loc_a': st.floats(-100, 100), 'loc_b': st.floats(-100, 100),
+        'sa': st.floats(-1, 2), 'sb': st.floats(-1, 2), 'extra': st.booleans(), 'container': st.sampled_from(['dict', 'series']),
+    })
+
+
+def oracle_tail(case):
+    """A condition far out in the tail of a column that is almost a copy of another one: the free column is
+    N(rho z, 1 - rho^2) in normal-score space, concentrated around +-5.  Its values are still continuous - no rows
+    pushed onto one value - and follow that law (the scores are recovered from the fitted Gaussian parameters, not
+    through the clipped CDF, so nothing is censored on the oracle's side)."""
+    import pandas as pd
+    from copulas.multivariate import GaussianMultivariate
+    from copulas.univariate import GaussianUnivariate
+
+    rs = np.random.RandomState(case['seed'])
+    rho = case['rho'] * (-1 if case['rho_neg'] else 1)
+    Z = rs.normal(size=(case['n_train'], 3))
+    Z[:, 1] = rho * Z[:, 0] + np.sqrt(1 - rho * rho) * Z[:, 1]
+    cols = {'a': case['loc_a'] + 10.0 ** case['sa'] * Z[:, 0], 'b': case['loc_b'] + 10.0 ** case['sb'] * Z[:, 1]}
+    if case['extra']:
+        cols['c'] = Z[:, 2]
+    df = pd.DataFrame(cols)
+    model = GaussianMultivariate(distribution=GaussianUnivariate)
+    value(model.fit, df.copy(), what='GaussianMultivariate.fit')
+    pa, pb = model.univariates[0].to_dict(), model.univariates[1].to_dict()
+    zt = case['z'] * (-1 if case['z_neg'] else 1)
+    x_cond = float(pa['loc'] + pa['scale'] * zt)
+    cond = {'a': x_cond} if case['container'] == 'dict' else pd.Series({'a': x_cond})
+    n = 1500
+    out = value(model.sample, n, conditions=cond, what='sample(conditions)')
+    require(list(out.columns) == list(df.columns) and len(out) == n, 'sample(%d, conditions) returned columns %r, %d rows' % (n, list(out.columns), len(out)),
+            tag='schema')
+    vals = out['b'].to_numpy().astype(float)
+    require(np.all(np.isfinite(vals)), 'free column contains non-finite values for the condition a=%r (normal score %.3f)' % (x_cond, zt), tag='finite')
+    _, counts = np.unique(vals, return_counts=True)
+    tied = int(counts[counts > 1].sum())
+    rho_fit = float(model.correlation.loc['a', 'b'])
+    mu, sd = rho_fit * zt, float(np.sqrt(max(1 - rho_fit ** 2, 0.0)))
+    require(tied <= 5, 'sample(%d, conditions={a: %r}) (normal score %.3f, correlation %.4f): %d rows of the free column b share their value with '
+            'another row (largest group %d): the conditional law N(%.3f, %.3f^2) lost its tail to a point mass'
+            % (n, x_cond, zt, rho_fit, tied, int(counts.max()), mu, sd), tag='tail-atom')
+    zb = (vals - pb['loc']) / pb['scale']
+    dist = vs.ks_distance(zb, lambda t: stats.norm.cdf((t - mu) / sd))
+    eps = vs.dkw_eps(n)
+    require(dist <= eps, 'free column b given a=%r: normal scores are not N(%.3f, %.3f^2): KS %.4f > band %.4f; sample mean %.3f sd %.3f'
+            % (x_cond, mu, sd, dist, eps, float(np.mean(zb)), float(np.std(zb))), tag='conditional-law')
+    beyond = float(stats.norm.sf((5.1666 - abs(mu)) / sd))
+    return {'nontrivial': beyond > 0.01, 'classes': ['tail-mass>1%' if beyond > 0.01 else 'tail-mass<=1%', 'container:' + case['container']]}
+
+
 SUBS = [
+    Sub('tail_conditioning', tail_strategy(), oracle_tail, quick=48, thorough=4800),
     Sub('conditional_law', strategy(4000), oracle, quick=96, thorough=0, shrink=False),
     Sub('conditional_law_large', strategy(16000), oracle, quick=0, thorough=1600, shrink=False),
 ]
